@@ -67,9 +67,14 @@ fn long_range(pattern: u32, n: u32) -> String {
 }
 
 pub fn long_range_pairs(thorough: bool) -> Vec<(String, String)> {
-    let lens: &[u32] = if thorough { &[15, 16, 17, 31, 32, 33, 63, 64, 65] } else { &[15, 16, 17, 33] };
+    let mut lens: Vec<u32> = if thorough { vec![15, 16, 17, 31, 32, 33, 63, 64, 65] } else { vec![15, 16, 17, 33] };
+    for n in around_thresholds(400) {
+        if n >= 4 && !lens.contains(&(n as u32)) {
+            lens.push(n as u32);
+        }
+    }
     let mut out = vec![];
-    for &n in lens {
+    for &n in &lens {
         for pattern in 0..4 {
             let long = long_range(pattern, n);
             // anchors: bounds of the first, a middle, the 16th/17th and the last segment, and the gaps next to them
@@ -103,11 +108,19 @@ pub fn long_range_pairs(thorough: bool) -> Vec<(String, String)> {
 /// block-wise comparison, skipping) part from the plain sweeps.  Bound values follow the odd / even convention.
 /// Wide segment i of `a` is [16i+1, 16i+13] (pattern 0), (16i+1, 16i+13) (1), [16i+1, 16i+13) (2).
 pub fn derived_long_pairs(thorough: bool) -> Vec<(String, String)> {
-    let lens: &[usize] = if thorough {
-        &[7, 8, 9, 15, 16, 17, 31, 32, 33, 47, 48, 63, 64, 65, 96, 127, 128, 129, 160, 255, 256, 257, 300]
+    let mut lens: Vec<usize> = if thorough {
+        vec![7, 8, 9, 15, 16, 17, 31, 32, 33, 47, 48, 63, 64, 65, 96, 127, 128, 129, 160, 255, 256, 257, 300]
     } else {
-        &[8, 16, 17, 32, 33, 64, 65, 128, 129, 257]
+        vec![8, 16, 17, 32, 33, 64, 65, 128, 129, 257]
     };
+    // constants new in a changed source file: lengths on both sides of t, of 2t and of 16t
+    for t in thresholds(1200) {
+        for n in [t - 1, t, t + 1, 2 * t - 1, 2 * t + 1, 16 * t - 1, 16 * t + 1] {
+            if n >= 3 && n <= 1300 && !lens.contains(&n) {
+                lens.push(n);
+            }
+        }
+    }
     let seg = |pattern: usize, i: usize| -> String {
         let a = 16 * i + 1;
         match pattern {
@@ -164,6 +177,18 @@ pub fn derived_long_pairs(thorough: bool) -> Vec<(String, String)> {
         // shifted copy (every segment overlaps two), and the gaps (the complement's inner part)
         bs.push((0..n).map(|i| format!("i{}:i{}", 16 * i + 9, 16 * i + 19)).collect::<Vec<_>>().join(" "));
         bs.push((0..n).map(|i| format!("i{}:i{}", 16 * i + 15, 16 * i + 15)).collect::<Vec<_>>().join(" "));
+        // every alignment along ONE long range (the longest of the tier, and those next to a new constant): a
+        // piece in segment j, an interval from inside segment j to inside segment j + 2, for every j
+        let all_alignments = n <= 300 && (n == *lens.iter().filter(|l| **l <= 300).max().unwrap_or(&0) || around_thresholds(300).contains(&n));
+        if all_alignments {
+            for j in 0..n {
+                bs.push(sub(j, 1));
+                if j + 2 < n {
+                    bs.push(format!("i{}:i{}", 16 * j + 5, 16 * (j + 2) + 5));
+                    bs.push(format!("e{}:e{}", 16 * j + 13, 16 * (j + 2) + 1));
+                }
+            }
+        }
         for b in bs {
             out.push((a_s.clone(), b.clone()));
             out.push((b, a_s.clone()));
